@@ -107,6 +107,8 @@ def model_predictions(scn, cevents, variants):
     where = {}
     sigs = [sig_of_event(c) for c in cevents]
     for vi, v in enumerate(variants):
+        if v["kind"] == "fsize":
+            continue                    # no single primitive op is the fault: oracle only
         n = sum(1 for s_ in sigs[: v["index"]] if s_ is not None)
         torn = v["kind"] in ("midwrite", "error_write", "error_close")
         if v["kind"] == "crash_after":
@@ -202,8 +204,10 @@ def run_variant(base_root, scn, sc, backend, variant):
             fault = dict(kind="crash", index=variant["index"] + 1)
         elif kind in ("error_event", "error_write", "error_close", "crash_after"):
             fault = dict(kind=kind, index=variant["index"])
+        elif kind == "fsize":
+            fault = dict(kind="fsize", limit=variant["limit"])
         w = child(dict(root=root, cache_mb=cache, calls=[sc["target"]], fault=fault,
-                       then=sc["matrix"] if kind.startswith("error") else []))
+                       then=sc["matrix"] if (kind.startswith("error") or kind == "fsize") else []))
         rec["write_events"] = len(w["events"])
         rec["write_result"] = w["results"]
         rec["same_process"] = w["then"]
@@ -218,7 +222,7 @@ def run_variant(base_root, scn, sc, backend, variant):
                     with open(p, "r+b") as f:
                         f.truncate(0 if variant["cut"] == "empty" else size // 2)
         fails = []
-        if kind.startswith("error"):
+        if kind.startswith("error") or kind == "fsize":
             # the faulted call itself must return the right value, and the process goes on
             fails += [dict(f, phase="faulted-call") for f in judge(sc, w["results"])]
             # (the faulted call did not memoize, so the first later call may compute and write again)
@@ -255,6 +259,9 @@ def enumerate_scenario(chk, scn, backend, workers=16, use_model=True):
             variants.append(dict(kind="error_close", index=i, event=ce))
             for cut in ("empty", "half"):
                 variants.append(dict(kind="midwrite", index=i, event=ce, cut=cut, path_rel=ce.split(" ", 1)[1]))
+    # kernel-level file size limits during the whole faulted call (short writes of whichever file crosses the limit)
+    for lim in (64, 300, 700, 1300, 2600):
+        variants.append(dict(kind="fsize", index=0, event="RLIMIT_FSIZE=%d" % lim, limit=lim))
     recs = []
     with concurrent.futures.ThreadPoolExecutor(max_workers=workers) as ex:
         futs = [ex.submit(run_variant, base, scn, sc, backend, v) for v in variants]
@@ -307,7 +314,8 @@ def main(chk, replay=None):
     chk.rule = ("scenarios {scalar, dedup hit, exception, 2-key partition, null with override, override rewrite, populated store, "
                 "partition merged on a nested call's partition} x backends {fs, fs+cache, fs+cache smaller than any result}; for each, EVERY mutating primitive op (mkdir, open-for-write, rename, remove under the "
                 "root) recorded in a fault-free run gives the variants crash-before, ENOSPC-at-op, and for file opens "
-                "EFBIG-on-write and crash-mid-write (file left empty / half). Each variant is produced with real child "
+                "EFBIG-on-write and crash-mid-write (file left empty / half); plus the whole call under 5 kernel file-size limits "
+                "(RLIMIT_FSIZE: real short writes). Each variant is produced with real child "
                 "processes, then the call matrix runs in the same process (error variants) and in a fresh process. "
                 "Distinct = distinct (scenario, backend, variant); all are non-trivial (each damages a real store).")
     chk.assumptions += ["process death = loss of process memory, completed syscalls persist (no power-loss model)",
